@@ -231,16 +231,51 @@ func checkURISafeSet(c *Ctx, e *bsetEngine) {
 				case *ssa.Index:
 					strX, strIdx = y.X, y.Index
 				}
-				if strX != nil && strX == ssa.Value(fn.Params[0]) {
+				if strX != nil {
+					// through re-slices of the input: rest := s[i+1:]; rest[0]
+					root, rb, rk, okR := sliceRoot(strX)
+					if !okR || root != ssa.Value(fn.Params[0]) {
+						continue
+					}
 					ib, ik := linTerm(strIdx)
+					if cst, isC := constInt(strIdx); isC {
+						ib, ik = nil, cst
+					}
+					switch {
+					case rb == nil:
+					case ib == nil:
+						ib = rb
+					default:
+						continue
+					}
+					ik += rk
+					if ib == nil {
+						continue
+					}
 					if (ib == lb || sameTerm(ib, lb)) && (ik-lk == 1 || ik-lk == 2) {
 						hexTests++
 					}
 				}
 			}
-			if bo, ok := iff.Cond.(*ssa.BinOp); ok && bo.Op == token.EQL && curRunes[bo.X] {
+			if bo, ok := iff.Cond.(*ssa.BinOp); ok && bo.Op == token.EQL {
 				if v, isC := constInt(bo.Y); isC && v == '%' && edgeDominates(b, 0, at) {
-					pct = true
+					if curRunes[bo.X] {
+						pct = true
+					}
+					// or the byte of the input at the start of the copy: s[i] == '%'
+					var bx, bi ssa.Value
+					switch y := bo.X.(type) {
+					case *ssa.Lookup:
+						bx, bi = y.X, y.Index
+					case *ssa.Index:
+						bx, bi = y.X, y.Index
+					}
+					if bx != nil && bx == ssa.Value(fn.Params[0]) {
+						ib, ik := linTerm(bi)
+						if (ib == lb || sameTerm(ib, lb)) && ik == lk {
+							pct = true
+						}
+					}
 				}
 			}
 		}
